@@ -325,6 +325,38 @@ def run(rep: common.Report, tier: str, seed: int, replay=None) -> int:
                 except Exception as e:  # noqa: BLE001
                     rep.violation(f"saving / loading a solution under a relative path raised {type(e).__name__}: {e}"[:160], {"path": rel})
                 rep.count(1)
+            # environment form: a batch driver with one directory per job and the same relative output name in each; the working
+            # directory changes after each solve.  Every solution must keep reading ITS file, at every recorded step.
+            jobs = []
+            for jb, fld in enumerate((0.2, 0.45)):
+                jd = os.path.join(td, f"job_{jb}")
+                os.makedirs(jd, exist_ok=True)
+                os.chdir(jd)
+                sj = tdgl.solve(dsmall, runs.make_options(None, solve_time=0.012, dt_init=2e-3, dt_max=4e-3, save_every=2,
+                                                          output_file="out.h5"), applied_vector_potential=fld)
+                snapj = [np.array(sj.tdgl_data.psi, copy=True)]
+                jobs.append((sj, jd, fld))
+            os.chdir(td)
+            for sj, jd, fld in jobs:
+                casej = {"job_dir": os.path.basename(jd), "output_file": "out.h5", "cwd_now": "another directory"}
+                try:
+                    ref = tdgl.Solution.from_hdf5(os.path.join(jd, "out.h5"))
+                    okj = bool(sj.saved_on_disk) and tdgl.Solution.from_hdf5(sj.path).equals(sj)
+                    for stp in range(ref.data_range[0], ref.data_range[1] + 1):
+                        sj.solve_step = stp
+                        ref.solve_step = stp
+                        okj = okj and (sj.tdgl_data == ref.tdgl_data)
+                    newp = os.path.join(td, f"resaved_{os.path.basename(jd)}.h5")
+                    sj.to_hdf5(newp)
+                    back = tdgl.Solution.from_hdf5(newp)
+                    okj = okj and tuple(back.data_range) == tuple(ref.data_range) and back.equals(sj)
+                except Exception as e:  # noqa: BLE001
+                    okj = False
+                    casej["error"] = f"{type(e).__name__}: {e}"[:140]
+                if not okj:
+                    rep.violation("a solution written under a relative output name does not keep its own data once the working directory "
+                                  "has changed (recorded steps / re-save / reload)", casej)
+                rep.count(1)
         finally:
             os.chdir(cwd_)
         # meshes of other sizes: a three-site mesh, and meshes whose site / edge counts cross 2**16 (index widths)
